@@ -10,6 +10,7 @@ the OS reports it) and skip-mode data of valid documents. Not decided: agreement
 options (a pure input question, DESIGN.md 3 C04).
 """
 import os
+import re
 
 from sim import core, canon, ops, simio
 from checks.common import PoolCheck, delivery_facts, merge, short, jcopy, shrink_plan
@@ -352,7 +353,7 @@ class C04(PoolCheck):
             else:
                 if g['k'] != 'raise':
                     return dict(base, clause='no-raise-on-invalid', ep=name, first=canon.template(errs[0][1]))
-                if g.get('verr') != errs[0]:
+                if _same_node(g.get('verr')) != _same_node(errs[0]):
                     return dict(base, clause='strict-not-first-lax', ep=name, cls=g['cls'],
                                 first=canon.template(errs[0][1]),
                                 raised=canon.template((g.get('verr') or [None, g.get('msg', '')])[1]))
@@ -376,6 +377,18 @@ class C04(PoolCheck):
                 c = jcopy(case)
                 c['doc'] = di
                 yield c
+
+
+_PATH_NS = re.compile(r'\{[^}]*\}|(?<=/)[A-Za-z_][\w.-]*:')
+
+
+def _same_node(e):
+    """An error with the namespace parts of its path removed: how a path spells the names depends on the namespace
+    map that is in force when the path is read (the raised error of a strict run is read inside the scope of the
+    failing element, the collected errors of a lax run after the end of the document); steps and positions stay."""
+    if isinstance(e, list) and len(e) > 4 and isinstance(e[4], str):
+        return e[:4] + [_PATH_NS.sub('', e[4])] + e[5:]
+    return e
 
 
 def _tv_err(e):
